@@ -134,7 +134,11 @@ TNet ==
                      <<<<"bytes left unread", "net round trip">>, Ev.werr \/ Ev.rerr \/ Ev.left - Ev.tail <= r.left>>,
                      <<<<"ReadFrom consumes bytes behind the chunk", "net round trip">>, Ev.werr \/ Ev.rerr \/ Ev.left - Ev.tail >= r.left>>,
                      <<<<"ReadFrom reports a byte count other than the bytes consumed", "net round trip">>,
-                       Ev.werr \/ Ev.rerr \/ Ev.rn + Ev.left = Ev.nbytes + Ev.tail>> })
+                       Ev.werr \/ Ev.rerr \/ Ev.rn + Ev.left = Ev.nbytes + Ev.tail>>,
+                     \* what a destination held before the read must not show afterwards, not even in arrays no Get
+                     \* reaches: written again it gives the bytes a fresh destination gives after reading the same chunk
+                     <<<<"a destination used before writes other bytes than a fresh one after reading the same chunk", "net round trip">>,
+                       Ev.werr \/ Ev.rerr \/ Ev.rewire>> })
            \cup (IF Ev.werr \/ Ev.rerr THEN {} ELSE Differs(NetComps, Ev.d, r, secs, "net round trip")))
   /\ RegSame /\ UNCHANGED cexp
 
